@@ -118,8 +118,16 @@ def spec_for(draw, text, kind=None, with_delay=False, hash_mods=(2, 3, 4)):
     toks = vspec.tokens_of_text(text)
     th = vspec.token_hash(toks)
     interesting = [t for t in dict.fromkeys(toks) if t not in '()']
-    kind = kind or draw(st.sampled_from(['monotone', 'monotone', 'hash', 'hash', 'subseq', 'mixed']))
+    kind = kind or draw(st.sampled_from(['monotone', 'monotone', 'hash', 'hash', 'subseq', 'mixed', 'irreducible']))
     parts = []
+    if kind == 'irreducible':
+        # accepts (practically) only the original: nothing can be minimised, ddSMT
+        # must say so and must not write an output file
+        salt = draw(st.integers(0, 10**6))
+        m = 1 << 40
+        pred = ['hash', salt, m, [vspec.mix(th, salt) % m]]
+        return dict(pred=pred, T=[0, 'sat\n', ''], F=[1, 'unsat\n', ''], noise=None, delay=None, fault=None,
+                    directive=False)
     if interesting:
         k = draw(st.integers(1, 3))
         for _ in range(k):
